@@ -289,6 +289,51 @@ def k5_run(carve):
     return _enum_outcome("a cast of a literal operand gives the value of the cast of a column holding that value, and Polars and SQLite agree on the values (6 source types x 7 targets x 3 values)", n, bad)
 
 
+def k7_run(carve):
+    """native: casts do not depend on how the source table was handed to Table(): dict, eager frame, LazyFrame, with Datetime
+    columns of every polars time unit (the library works with microseconds throughout) - the cast results are the documented
+    ones for every source form"""
+    import datetime as dt
+    import warnings
+
+    import polars as pl
+
+    from .c13 import _enum_outcome
+
+    pdt = H.pdt
+    vals = [dt.datetime(2020, 2, 29, 13, 14, 15, 123000), dt.datetime(1999, 12, 31, 23, 59, 59), None, dt.datetime(1970, 1, 2, 0, 0, 1, 5000)]
+    ints = [3, None, -2, 0]
+    want = {
+        "s": [None if v is None else v.strftime("%Y-%m-%d %H:%M:%S.%f") for v in vals],
+        "d": [None if v is None else v.date() for v in vals],
+        "i": [None if v is None else str(v) for v in ints],
+        "back": [None if v is None else dt.datetime(v.year, v.month, v.day) for v in vals],
+    }
+    sources = {"dict": lambda: pdt.Table({"t": vals, "n": ints}, name="src")}
+    for unit in ("us", "ms", "ns"):
+        frame = pl.DataFrame({"t": pl.Series("t", vals, dtype=pl.Datetime(unit)), "n": pl.Series("n", ints, dtype=pl.Int64)})
+        sources[f"DataFrame[{unit}]"] = lambda frame=frame: pdt.Table(frame, name="src")
+        sources[f"LazyFrame[{unit}]"] = lambda frame=frame: pdt.Table(frame.lazy(), name="src")
+    n, bad = 0, []
+    with warnings.catch_warnings():
+        warnings.simplefilter("ignore")
+        for label, mk in sources.items():
+            n += 1
+            try:
+                t = mk()
+                out = t >> pdt.mutate(s=t.t.cast(pdt.String()), d=t.t.cast(pdt.Date()), i=t.n.cast(pdt.String()), back=t.t.cast(pdt.Date()).cast(pdt.Datetime())) >> pdt.export(pdt.Polars())
+            except Exception as e:  # noqa: BLE001
+                bad.append(f"Table({label}): {type(e).__name__}: {str(e)[:120]}")
+                continue
+            for c, w in want.items():
+                got = out[c].to_list()
+                if got != w:
+                    bad.append(f"Table({label}): column {c} = {got}; documented {w}")
+            if out.schema["t"] != pl.Datetime("us") or out.schema["back"] != pl.Datetime("us"):
+                bad.append(f"Table({label}): Datetime columns are exported as {out.schema['t']} / {out.schema['back']}, documented Datetime(us)")
+    return _enum_outcome("cast results (Datetime -> String / Date, Int -> String, Date -> Datetime) are the documented ones for every way of handing the data to Table()", n, bad)
+
+
 def k6_run(carve):
     """the static type of x.cast(T) is T (its concrete representative for the generic Int / Float): a cast is never dropped or
     replaced by another target, for column, expression and literal operands"""
@@ -335,6 +380,8 @@ def obligations(tier):
     ]
     obs.append(Obligation("C17/K5/literal_operands", "K5", "casts of literal (const) operands agree with casts of columns, natively on both backends", k5_run,
                           functions=cfns + [fi(H.sqlite_backend.SqliteImpl.compile_cast), fi(H.polars_backend.compile_col_expr), fi(H.sql_backend.SqlImpl.compile_lit)], bounded="6 source types x 7 targets x 3 sample values x 2 backends, plus 10 nested cast chains (native execution)"))
+    obs.append(Obligation("C17/K7/source_forms", "K7", "cast results do not depend on the form of the source (dict / DataFrame / LazyFrame, Datetime time units)", k7_run, functions=cfns + [fi(H.polars_backend.PolarsImpl.__init__)],
+                          bounded="7 source forms x 4 casts on 4 rows"))
     obs.append(Obligation("C17/K6/result_type", "K6", "x.cast(T) has type T (no cast is dropped), for columns, expressions, C-references and literals", k6_run, functions=cfns + [fi(H.col_expr_mod.ColExpr.cast)],
                           bounded="11 operand shapes x 9 targets (concrete and generic) on one table; native Polars export"))
     targets = [Int64(), H.pdt.Int32(), Float64(), Float32(), String(), Date(), Datetime(), Enum("a", "b")]
